@@ -309,6 +309,29 @@ def run_case(case):
         v.close("translated/rotated: horizontal direction components move with the geometry, vertical ones unchanged",
                 max(float(np.max(np.abs(R @ p.emitted_direction - w.emitted_direction))), float(np.max(np.abs(R @ p.received_direction - w.received_direction)))), dir_tol(p), **det)
         v.close("translated/rotated: equal attenuation", float(np.max(np.abs(att(p) - att(w)))), 1e-6, **det)
+    # ---- mechanism observable (kf_layered_scan_edge_root): a multi-leg layered solution whose end leg lies in a gradient layer, has
+    # no depth extent and is launched / received *exactly* horizontally is the root the finder reports at the 90-degree end of its
+    # launch-angle scan.  Such solutions are reported under their own clause and set aside, the remaining ones are compared strictly.
+    def scan_edge_root(p):
+        legs_ = list(getattr(p, "paths", []))
+        if len(legs_) < 2:
+            return False
+        for sp, dvec in ((legs_[0], p.emitted_direction), (legs_[-1], p.received_direction)):
+            if (abs(float(np.asarray(dvec, float)[2])) <= 1e-12 and not hasattr(sp, "_points")
+                    and float(np.asarray(sp.from_point, float)[2]) == float(np.asarray(sp.to_point, float)[2])):
+                return True
+        return False
+
+    if str(fam).startswith("layered"):
+        e1 = [i for i, p in enumerate(s1) if scan_edge_root(p)]
+        e2 = [i for i, p in enumerate(s2) if scan_edge_root(p)]
+        if e1 or e2:
+            v.check(False, "no layered solution is a root at the exactly horizontal end of the launch-angle scan",
+                    forward_lengths=[float(s1[i].path_length) for i in e1], swapped_lengths=[float(s2[i].path_length) for i in e2], exactly_horizontal_zero_extent_end_leg=True, **geo)
+            s1 = [p for i, p in enumerate(s1) if i not in e1]
+            s2 = [p for i, p in enumerate(s2) if i not in e2]
+            if not v.check(len(s1) == len(s2), "swapping / moving the endpoints keeps the number of solutions", n=[len(s1), len(s2)], scan_edge_roots_set_aside=[len(e1), len(e2)], **geo):
+                return v.result(decided=True, nontrivial=False, sample=sample)
     # ---- reciprocity: match solutions by path length (the order of reflected families may differ under a swap)
     used = set()
     for j, p in enumerate(s1):
@@ -408,6 +431,13 @@ def kf_cancellation(case, viol):
 
 def fx_uniform_reflection_points(case, viol):
     return viol["detail"].get("family") == "uniform" and viol["clause"].startswith("translated/rotated")
+
+
+def kf_layered_scan_edge_root(case, viol):
+    """Root reported at the exactly horizontal end of the launch-angle scan (endpoint on an inner boundary below a gradient layer
+    whose gradient has died out): measured as a zero-extent gradient end leg with a direction z-component of exactly 0."""
+    return (viol["clause"] == "no layered solution is a root at the exactly horizontal end of the launch-angle scan"
+            and viol["detail"].get("exactly_horizontal_zero_extent_end_leg") is True)
 
 
 def kf_layered_angle_scan(case, viol):
